@@ -417,8 +417,8 @@ def initEnv (ds : List Decl) : Env := declEnv ds ++ builtinEnv
 inside nested assignments included), and every event well typed in the environment left by what
 precedes it (condition, then body). Nothing else is needed: `checkStmtV` / `typeOfV` / `checkCondV`
 answer `none` on anything that is not an assignment statement over value expressions (a superset of
-the shape `Frag.stmtOk2`: guarded assignments as values and assignments inside conditions are outside
-the fragment of the semantic theorem), and the hazard part of `Frag.stmtOk2` matters for the
+the shape `Frag.stmtOk2`: assignments inside conditions, and assignments to built-in registers used as
+values, are outside the fragment of the semantic theorem), and the hazard part of `Frag.stmtOk2` matters for the
 semantics, not for acceptance – the compiler accepts hazardous nestings. -/
 def WellTyped (ds : List Decl) (evs : List Event) : Bool :=
   declsOk ds && Frag.LitsOk evs && (checkEventsV (initEnv ds) evs).isSome
